@@ -48,6 +48,10 @@ func runC07(c *core.Ctx) {
 	// the codec that produced the octets, against that codec's limits)
 	c.MinInstances("C07-SINGLE", 3)
 	importRules(c, "C06", "C07-SINGLE", func(o core.Obligation) bool { return o.Rule == "C06-SINGLE" })
+	// "a message needing more than 255 parts is refused with an error": the refusal of the splitter must survive in the batch
+	// encoder's candidate - C09's rule on encoder.Run (usable iff the producer that ran succeeded)
+	c.MinInstances("C07-REFUSE", 1)
+	importRulesFn(c, "C09", "C07-REFUSE", func(sub *core.Ctx) { runRule(sub); resultRule(sub) }, nil)
 	c.MinInstances("C07-TEMPLATE", 4)
 	c.MinInstances("C07-HDR", 2)
 	c.MinInstances("C07-NARROW", 4)
